@@ -125,7 +125,9 @@ fn adapters_differ(pkg: &rpm::Package, n: usize) -> Option<&'static str> {
         let mut it = fresh()?;
         let got = it.nth(j).map(item_sig);
         let rest: Vec<String> = it.take(n + 1).map(item_sig).collect();
-        if got != plain.get(j).cloned() || rest != plain.iter().skip(j + 1).cloned().collect::<Vec<_>>() {
+        // `nth(j)` beyond the end of the plain iteration stops at the first `None`; what a NON-FUSED iterator (the `None` of an
+        // early trailer, Model/FileIter.lean) hands out after that is not part of the plain iteration: only `got` is comparable
+        if got != plain.get(j).cloned() || (j < plain.len() && rest != plain.iter().skip(j + 1).cloned().collect::<Vec<_>>()) {
             return Some("nth");
         }
     }
